@@ -390,6 +390,11 @@ func (c *stepCtx) stepDecode(k int, st map[string]interface{}) string {
 	}
 	if boolean(st, "guard") {
 		in = guardedCopy(in) // ends at an inaccessible page
+	} else if sl := num(st, "slack", 0); sl > 0 {
+		// the input is a prefix of a larger (zero-filled) buffer: len(in) < cap(in).  Nothing beyond len may be read.
+		arr := make([]byte, len(in)+sl)
+		copy(arr, in)
+		in = arr[:len(in)]
 	} else {
 		in = append(make([]byte, 0, len(in)), in...) // cap = len
 	}
